@@ -58,8 +58,6 @@ class Prop(BaseProp):
         ctx.count("interval_" + case["ikind"])
         ivt = None if iv is None else (iv[0], iv[1])
         a, b = (ts, te) if iv is None else iv
-        if N >= 3:
-            ctx.count("N>=3")
         args = sts if N > 2 else None
         if N == 2:
             ctx.count("bivariate_form")
